@@ -24,10 +24,10 @@ def gen_cases(rng, tier):
     cases = []
     n = 1500 if tier == "quick" else 6000
     for _ in range(n):
-        m = rng.choice(["subst", "subst", "subst", "delete", "insert", "truncate", "splice", "hdr", "keyswap", "secretswap", "none", "subst2"])
+        m = rng.choice(["subst", "subst", "subst", "delete", "insert", "truncate", "splice", "hdr", "keyswap", "secretswap", "secretswap", "none", "subst2"])
         cases.append({"digest": rng.choice(["md5", "sha1", "sha256"]), "key": rng.choice(KEYS), "vi": rng.randrange(len(VALUES)),
                       "mut": m, "pos": rng.random(), "pos2": rng.random(), "byte": rng.choice(SUBS + [rng.randrange(256)]), "vj": rng.randrange(len(VALUES)),
-                      "key2": rng.choice(KEYS)})
+                      "key2": rng.choice(KEYS), "other_secret": rng.choice(["0ther", "S3CR3T", "s3cr3T", "s3cr3t ", "s3cr3"])})
     if tier == "thorough":  # every position x substitution set, 3 blobs x 3 digests
         for dg in ("md5", "sha1", "sha256"):
             for vi in (0, 2, 4):
@@ -80,7 +80,7 @@ def run_impl(case):
         blob = _mutate(case, honest, other)
         rcfg = dict(cfg)
         if case["mut"] == "secretswap":
-            rcfg["secret_value"] = "0ther"
+            rcfg["secret_value"] = case.get("other_secret", "0ther")      # a different secret: unrelated, or the writer's up to letter case / a trailing blank
         mem, rec = serrun.make(rcfg)
         try:
             await mem.init()
